@@ -19,7 +19,14 @@ import (
 	"time"
 )
 
-const VerifDir = "/verif"
+// VerifDir is where known_findings.json, evidence/ and replay/ live (VERIF_DIR overrides
+// it for development copies; registered commands always use /verif).
+var VerifDir = func() string {
+	if d := os.Getenv("VERIF_DIR"); d != "" {
+		return d
+	}
+	return "/verif"
+}()
 
 type Options struct {
 	Prop      string
